@@ -9,6 +9,9 @@ import (
 )
 
 func evaluateExpression(e *tree.Expression, retriever variable.Retriever, caller functionCaller) (*variable.Value, error) {
+	if e == nil {
+		return nil, fmt.Errorf("missing expression")
+	}
 	switch {
 	case e.VariableID != nil:
 		value, ok := retriever.GetValue(*e.VariableID)
@@ -39,7 +42,7 @@ func evaluateExpression(e *tree.Expression, retriever variable.Retriever, caller
 	case e.Operator != nil:
 		return evaluateBinaryOperation(*e.Operator, e.LeftOperand, e.RightOperand, retriever, caller)
 	}
-	return nil, nil
+	return nil, fmt.Errorf("expression has no value (null)")
 }
 
 func evaluateBinaryOperation(operator int, leftOperand, rightOperand *tree.Expression, retriever variable.Retriever, caller functionCaller) (*variable.Value, error) {
